@@ -387,7 +387,11 @@ FIELD_FORMS = [
     ('%H:%M:%S %d/%m/%Y', lambda f: '%02d:%02d:%02d %02d/%02d/%s' % (f[3], f[4], f[5], f[2], f[1], year_str(f[0]))),
 ]
 # near misses of the fractional-second readers: a decimal point without digits, a fraction without seconds, …
-FRAC_CASES = [(b'%E*S', b'05.'), (b'%E3S', b'05.'), (b'%H:%M:%E*S', b'20:21:05.'), (b'%Y-%m-%d%ET%H:%M:%E*S%Ez', b'2014-02-12T20:21:05.+00:00'),
+FRAC_CASES = [(b'%Y-%U-%w', b'4294967296-10-3'), (b'%Y-%U-%w', b'2147483648-01-1'), (b'%Y %W %u', b'-4294967297 30 7'), (b'%Y-%U-%w', b'100000000000-25-4'), (b'%Y-%W-%w', b'-2147483649-52-0'),
+              (b'%Y-%U-%w', b'2024-09-4'), (b'%Y-%U-%w', b'-5-09-4'), (b'%Y-%W-%u', b'-401-01-1'), (b'%Y %U %a', b'2018 53 Mon'), (b'%Y %U %w', b'2017 0 0'),
+              (b'%p %I:%M', b'PM 05:30'), (b'%p %I:%M', b'PM 12:15'), (b'%p %I:%M', b'AM 12:15'), (b'%Y-%m-%d %p %I:%M:%S', b'2013-06-28 PM 07:08:09'), (b'%p%I', b'PM11'), (b'%I %p', b'11 PM'), (b'%p %l', b'pm 7'),
+              (b'%p %H:%M', b'PM 05:30'), (b'%H %p', b'05 PM'), (b'%p %OI', b'PM 05'),
+              (b'%E*S', b'05.'), (b'%E3S', b'05.'), (b'%H:%M:%E*S', b'20:21:05.'), (b'%Y-%m-%d%ET%H:%M:%E*S%Ez', b'2014-02-12T20:21:05.+00:00'),
               (b'%Y-%m-%d%ET%H:%M:%E*S%Ez', b'2014-02-12T20:21:05.Z'), (b'%E*S', b'05.5'), (b'%E*S', b'05'), (b'%E*S', b'.5'), (b'%E*S', b'5.5'), (b'%E*f', b''),
               (b'%E*f', b'.'), (b'%E*f', b'123'), (b'%S.%E*f', b'05.'), (b'%S.%E*f', b'05.0'), (b'%E0S', b'05.'), (b'%E15S', b'59.999999999999999'), (b'%E15S', b'59.9999999999999999'),
               (b'%E*S', b'60.5'), (b'%E*S', b'61'), (b'%E*S', b'05.x'), (b'%E*S', b'05..5'), (b'%E2f', b'5x'), (b'%E*S %Ez', b'05. +01:00'), (b'%H%E*S', b'1205.'),
